@@ -62,3 +62,41 @@ Proof.
 Qed.
 Print Assumptions C19_export_independent_of_supply_order.
 Print Assumptions C19_method_exports_the_typeset_graph.
+
+(* ---- Part 3: no premises left for typesets built by the generated constructor.  For ANY relation table
+   with the table facts and pairwise distinct type names, two closed lists holding the same types (in any
+   supply orders, with any set iteration orders) build typesets whose exports - full or base_only - are
+   the same call of pydot, hence the same bytes for a deterministic pydot/graphviz. *)
+From V Require Import NxFacts Graph_bridge GraphWF AlgebraTheory ExportWF Shipped_gen ShippedFacts ShippedGraph.
+
+Theorem C19_constructed_typesets_export_identically :
+  forall (T D St L F : Type) (X : ctx T D St L F) (rk : T -> nat), table_ok X rk ->
+    (forall a b, type_name X a = type_name X b -> a = b) ->
+  forall types1 types2 w1 w2,
+    closed X types1 -> (forall t, In t types1 <-> In t types2) ->
+    exists ts1 ts2 w1' w2',
+      VT_init X (VT_blank X) types1 w1 = Ok (tt, ts1, w1') /\
+      VT_init X (VT_blank X) types2 w2 = Ok (tt, ts2, w2') /\
+      forall base_only, VT_output_graph X ts1 base_only = VT_output_graph X ts2 base_only.
+Proof.
+  intros T D St L F X rk H Hinj types1 types2 w1 w2 Hc Hmem.
+  assert (Hc2 : closed X types2) by (apply (closed_ext X types1); assumption).
+  destruct H as [Heq [Hty [Hperm [Hgen [HG [Huniq [Hone Hrk]]]]]]].
+  destruct Hc as [G1 P1]. destruct Hc2 as [G2 P2].
+  destruct (typeset_well_formed X rk Heq Hty Hperm Hgen HG Huniq Hone Hrk types1 w1 G1 P1) as [ts1 [w1' [E1 W1]]].
+  destruct (typeset_well_formed X rk Heq Hty Hperm Hgen HG Huniq Hone Hrk types2 w2 G2 P2) as [ts2 [w2' [E2 W2]]].
+  exists ts1, ts2, w1', w2'. split; [exact E1|]. split; [exact E2|].
+  assert (Hm : forall t, In t (mkset X types1) <-> In t (mkset X types2)) by (intro t; rewrite !(mkset_in X Heq Hperm); apply Hmem).
+  intro b. rewrite !C19_method_exports_the_typeset_graph, !C19_export_is_sorted_copy.
+  change (C19.export_graph X) with (ExportTheory.export_graph X).
+  destruct b.
+  - rewrite (identity_graphs_export_equal X rk Heq Hinj _ _ _ _ _ _ ts1 ts2 W1 W2 Hm). reflexivity.
+  - rewrite (relation_graphs_export_equal X rk Heq Hinj _ _ _ _ _ _ ts1 ts2 W1 W2 Hm). reflexivity.
+Qed.
+Print Assumptions C19_constructed_typesets_export_identically.
+
+(* type names of the shipped types are pairwise distinct (by computation on the regenerated table) *)
+Theorem C19_shipped_names_distinct :
+  forall si rnd a b, type_name (shipped_ctx_with si rnd) a = type_name (shipped_ctx_with si rnd) b -> a = b.
+Proof. intros si rnd a b. simpl. destruct a, b; vm_compute; intro E; (reflexivity || discriminate). Qed.
+Print Assumptions C19_shipped_names_distinct.
